@@ -526,7 +526,10 @@ func baseUnpack(L *LState) int {
 }
 
 func baseXPCall(L *LState) int {
-	fn := L.CheckFunction(1)
+	// lbaselib.c luaB_xpcall does not look at the type of the function: a callable object is called
+	// through __call, anything else fails inside the protected call (and reaches the handler)
+	L.CheckAny(1)
+	fn := L.Get(1)
 	errfunc := L.CheckFunction(2)
 
 	top := L.GetTop()
